@@ -13,11 +13,12 @@ CACHE_ROOT = os.environ.get("VERIF_KANI_CACHE", "/var/tmp/ipcverif-kani-cache")
 
 
 class KaniUnit:
-    def __init__(self, name, harness_file, append_to, harnesses, props, id_props, safety_props, quick=True, assumptions=(), timeout=240):
+    def __init__(self, name, harness_file, append_to, harnesses, props, id_props, safety_props, quick=True, assumptions=(), timeout=240, replay=()):
         """harnesses: list of harness fn names; id_props: list of (assert-id prefix, [props]) - first match wins."""
         self.name, self.harness_file, self.append_to = name, harness_file, append_to
         self.harnesses, self.props, self.id_props = list(harnesses), tuple(props), list(id_props)
         self.safety_props, self.quick, self.assumptions, self.timeout = tuple(safety_props), quick, list(assumptions), timeout
+        self.replay = list(replay)     # (assert-id prefix, scenario, [names of the leading kani::any() values to pass as args])
 
     def props_of(self, aid):
         for pre, props in self.id_props:
@@ -142,6 +143,11 @@ def run_kani_unit(unit, workdir, tier, seed):
                     oid = "kani.%s/real-code-safety" % h
                     props = unit.safety_props
                 cex = _counterexample(detail)
+                if im:
+                    rp = _replay_on_real_code(unit, d, env, im.group(1), cex)
+                    if rp is not None:
+                        cex = dict(cex or {"kind": "none", "values": []})
+                        cex.update(rp)
                 ur.failures.append(core.Failure(oid, props, unit.name, "kani", site, desc, _trim(detail), cex, h))
         ur.functions.append({"kani_harnesses": unit.harnesses, "real_crate": "scratch copy of /repo/src (working tree) + appended cfg(kani) module %s (add-only)" % unit.harness_file})
         ur.trusted = ["kani stub model: " + a for a in unit.assumptions]
@@ -177,6 +183,40 @@ def _counterexample(detail):
     vals = re.findall(r"//\s*(-?\d+(?:\w+)?)\s*\n\s*vec!\[([^\]]*)\]", b)
     return {"kind": "kani concrete playback: values of kani::any() in call order, i.e. the outcomes of the stubbed system calls that drive the REAL function into the failing assertion",
             "values": [v for v, _ in vals], "replayed": False, "unit_test": b[:3000]}
+
+
+def _replay_on_real_code(unit, d, env, aid, cex):
+    """Run the matching scenario of replay/verif_replay.rs against the real, un-stubbed crate (the same scratch copy)."""
+    hit = next(((sc, names) for pre, sc, names in unit.replay if aid.startswith(pre)), None)
+    if hit is None:
+        return None
+    sc, names = hit
+    vals = (cex or {}).get("values", [])
+    args = ",".join("%s=%s" % (n, re.sub(r"[^0-9-]", "", str(v))) for n, v in zip(names, vals))
+    tests = os.path.join(d, "tests")
+    os.makedirs(tests, exist_ok=True)
+    shutil.copy(os.path.join(core.VERIF, "replay", "verif_replay.rs"), os.path.join(tests, "verif_replay.rs"))
+    e = dict(env)
+    e["CARGO_TARGET_DIR"] = os.path.join(d, "target-replay")
+    e["VERIF_REPLAY_SCENARIO"] = sc
+    e["VERIF_REPLAY_ARGS"] = args
+    e.pop("RUSTFLAGS", None)
+    try:
+        p = subprocess.run(["cargo", "test", "--offline", "--test", "verif_replay"], cwd=d, env=e, capture_output=True, text=True, timeout=600)
+        out = p.stdout + "\n" + p.stderr
+    except subprocess.TimeoutExpired:
+        return {"replay_scenario": sc, "replay_args": args, "replayed": False, "replay_output": "timeout"}
+    finally:
+        try:
+            os.remove(os.path.join(tests, "verif_replay.rs"))
+        except OSError:
+            pass
+    failed = ("test result: FAILED" in out) or ("SIGABRT" in out) or ("SIGSEGV" in out)
+    built = "test result:" in out or failed
+    tail = "\n".join([l for l in out.splitlines() if "panicked" in l or "test result" in l or "left:" in l or "right:" in l or "descriptor" in l][:12])
+    return {"replay_scenario": sc, "replay_args": args, "replayed": bool(failed),
+            "replay_output": tail if built else out[-800:],
+            "replay_how": "tests/verif_replay.rs (from /verif/replay) in a scratch copy of the real crate: cargo test --test verif_replay with VERIF_REPLAY_SCENARIO=%s VERIF_REPLAY_ARGS=%s" % (sc, args)}
 
 
 def _trim(detail):
